@@ -4,6 +4,8 @@ Python integers / reference-model values and the library's native in-memory layo
 Conversions are done *here*, in Python (Montgomery form = a * 2^bits mod p), so inputs never pass
 through library code before they reach the operation under test."""
 import ctypes
+import os
+import weakref
 import re
 from ctypes import c_char_p, c_int, c_size_t, c_uint64, c_void_p, c_uint
 
@@ -26,6 +28,47 @@ def u64(v):
 
 def sz(v):
     return c_size_t(v)
+
+
+# ---------------------------------------------------------------------------------------------------- guard-page allocator (C17)
+# VERIF_GUARD=end|start: every argument / result object handed to the library lives flush against an inaccessible page (after its last
+# byte, or before its first), so a read or write beyond the object faults even when it is made by hand-written assembly, which the
+# sanitizers do not instrument.  Objects whose size is not a multiple of 16 keep the library's 16-byte alignment and therefore a slack of
+# up to 15 bytes on the far side in "end" mode.
+_GUARD = os.environ.get("VERIF_GUARD", "")
+_PAGE = 4096
+_libc_mm = None
+
+
+def _alloc(n, fill=0):
+    if not _GUARD:
+        if fill:
+            return ctypes.create_string_buffer(bytes([fill]) * n, n)
+        return ctypes.create_string_buffer(n)
+    global _libc_mm
+    if _libc_mm is None:
+        _libc_mm = ctypes.CDLL(None, use_errno=True)
+        _libc_mm.mmap.restype = ctypes.c_void_p
+        _libc_mm.mmap.argtypes = [ctypes.c_void_p, ctypes.c_size_t, ctypes.c_int, ctypes.c_int, ctypes.c_int, ctypes.c_long]
+        _libc_mm.munmap.argtypes = [ctypes.c_void_p, ctypes.c_size_t]
+        _libc_mm.mprotect.argtypes = [ctypes.c_void_p, ctypes.c_size_t, ctypes.c_int]
+    n = max(n, 1)
+    pages = (n + _PAGE - 1) // _PAGE
+    total = (pages + 2) * _PAGE
+    base = _libc_mm.mmap(None, total, 3, 0x22, -1, 0)            # PROT_READ|PROT_WRITE, MAP_PRIVATE|MAP_ANONYMOUS
+    if base in (None, ctypes.c_void_p(-1).value):
+        raise MemoryError("mmap")
+    _libc_mm.mprotect(base, _PAGE, 0)
+    _libc_mm.mprotect(base + (pages + 1) * _PAGE, _PAGE, 0)
+    if _GUARD == "start":
+        addr = base + _PAGE
+    else:
+        addr = (base + (pages + 1) * _PAGE - n) & ~15
+    arr = (ctypes.c_char * n).from_address(addr)
+    if fill:
+        ctypes.memset(addr, fill, n)
+    weakref.finalize(arr, _libc_mm.munmap, base, total)
+    return arr
 
 
 class Lib:
@@ -126,7 +169,7 @@ class Lib:
 
     @staticmethod
     def buf(n, init=None):
-        b = ctypes.create_string_buffer(n)
+        b = _alloc(n)
         if init is not None:
             ctypes.memmove(b, init, min(n, len(init)))
         return b
@@ -143,12 +186,12 @@ class Lib:
 
     def out(self, name, out_size, *args):
         """Calls name(out, *args) with a fresh output buffer pre-filled with 0xCD; returns its bytes."""
-        o = ctypes.create_string_buffer(b"\xCD" * out_size, out_size)
+        o = _alloc(out_size, 0xCD)
         self.call(name, o, *args)
         return o.raw
 
     def outr(self, name, out_size, *args):
-        o = ctypes.create_string_buffer(b"\xCD" * out_size, out_size)
+        o = _alloc(out_size, 0xCD)
         rv = self.call(name, o, *args)
         return rv, o.raw
 
